@@ -244,17 +244,30 @@ func (t *transport) RoundTrip(req *http.Request) (*http.Response, error) {
 	select {
 	case <-rw.ready:
 	case <-finished:
-		// handler panicked before writing a header
+	case <-req.Context().Done():
+	}
+	select {
+	case <-rw.ready:
+	default:
+		select {
+		case <-finished:
+		default:
+			// client context ended first
+			stop()
+			c.reset()
+			go func() { <-finished; c.done() }()
+			return nil, context.Cause(req.Context())
+		}
+	}
+	select {
+	case <-rw.ready:
+	default:
+		// handler ended (panicked) before writing a header
 		stop()
 		c.reset()
 		c.done()
 		n.log(t.from, to, sreq, -2)
 		return nil, fmt.Errorf("lab: %s->%s: connection reset by peer", t.from, to)
-	case <-req.Context().Done():
-		stop()
-		c.reset()
-		go func() { <-finished; c.done() }()
-		return nil, context.Cause(req.Context())
 	}
 	n.log(t.from, to, sreq, rw.status)
 
